@@ -66,6 +66,7 @@ struct RunCmd {
   int64_t start_tick = 0, finish_tick = -1;
   int status = -1;                 // exit status once finished
   bool finished = false, killed = false, wrote = false;
+  bool unreaped = false;           // completed, but ninja gave up the build before it looked at the result (Abort)
   std::vector<std::pair<std::string, std::string>> snapshot;  // what it read at start
   std::string rsp_content;         // content of rsp= file at start (kMissing if absent)
   std::vector<std::string> missing_dirs;  // outputs/depfile whose directory did not exist at start
